@@ -112,7 +112,7 @@ def run_case(case):
         if not out.ok: return out
         tot = float(model.total)
         Lu = inf.loss_from_answers(meas, lambda proj: np.full([shape[attrs.index(a)] for a in proj], tot / np.prod([shape[attrs.index(a)] for a in proj])))
-        if L > Lu * (1 + 1e-6) + 1e-12:
+        if L > Lu * (1 + 1e-6) + inf.loss_floor(meas, tot):
             return out.fail('worse_than_uniform', 'loss %r of the returned tables exceeds the loss %r of uniform tables (oracle %s, iters %d)' % (L, Lu, case['oracle'], case['iters']))
         if case['oracle'] == 'convex':
             pf = model.primal_feasibility(model.marginals)
@@ -156,8 +156,9 @@ def run_case(case):
         if L < (f_hi - gap) - 1e-6 * (f_unif + 1.0):
             return out.fail('below_optimum', 'loss %r below the certified minimum %r' % (L, f_hi - gap))
         denom = f_unif - f_hi
-        if denom <= 1e-3 * f_unif or denom <= 1e-12:
-            e = 0.0 if L - f_hi <= 1e-6 * (f_unif + 1e-12) + 1e-12 else (L - f_hi) / max(denom, 1e-300)
+        floor = inf.loss_floor(meas, tot)
+        if denom <= 1e-3 * f_unif or denom <= 1e3 * floor:
+            e = 0.0 if L - f_hi <= 1e-6 * f_unif + 1e3 * floor else (L - f_hi) / max(denom, 1e-300)
         else:
             e = (L - f_hi) / denom
         excess.append(e)
